@@ -1408,8 +1408,11 @@ class _Streamer(mcasm.Streamer):
         if self._state.current_block.size:
             self._split_block(add_fallthrough=True)
 
-        self._state.current_section.alignment[self._state.current_block] = (
-            alignment
+        # Several alignment directives in a row all apply to the same place;
+        # the strictest one covers the others.
+        alignments = self._state.current_section.alignment
+        alignments[self._state.current_block] = max(
+            alignment, alignments.get(self._state.current_block, 0)
         )
 
     @_convert_errors_and_return(True)
